@@ -1,7 +1,6 @@
 package e2
 
 import (
-	"crypto/sha256"
 	"fmt"
 	"strings"
 
@@ -39,7 +38,7 @@ func runDkls23Soft(env *SymEnv, tag string, pol Policy, quorum []sharing.ID, msg
 		shards[id] = sh
 		res.PK = bs.PublicKeyValue()
 	}
-	suite, err := ecdsa.NewSuite[sG, sF, sF](group, sha256.New)
+	suite, err := ecdsa.NewSuite[sG, sF, sF](group, dklsHash)
 	if err != nil {
 		return nil, err
 	}
@@ -185,8 +184,10 @@ func c01Dkls23Soft(env *SymEnv, pol Policy, quorum []sharing.ID, msg []byte) {
 		return
 	}
 	rx, _ := f.FromWideBytes(rxi.Bytes())
-	digest := sha256.Sum256(msg)
-	m, _ := ecdsa.DigestToScalar[sF](f, digest[:])
+	hh := dklsHash()
+	hh.Write(msg)
+	digest := hh.Sum(nil)
+	m, _ := ecdsa.DigestToScalar[sF](f, digest)
 	k, x := R.Dlog(), res.PK.Dlog()
 	env.Valid("C01.dkls23-softspoken/(Σw)·k = (m + r_x·x)·(Σu)  [ECDSA equation for s = Σw/Σu]", env.EqF(sumW.Mul(k), m.Add(rx.Mul(x)).Mul(sumU)))
 	env.Witness("C01.dkls23-softspoken/Σu ≠ 0 (the aggregator can divide)", symalg.Not(env.EqF(sumU, f.Zero())))
